@@ -57,6 +57,7 @@ type Ctx struct {
 }
 
 func newCtx(p *Program, prop, tier string) *Ctx {
+	resolveProg = p
 	return &Ctx{P: p, Prop: prop, Tier: tier, Stats: map[string]int{}, seen: map[string]*Obligation{}}
 }
 
